@@ -592,6 +592,31 @@ def cases(tier, seed):
     classes = ['CNF', 'OPB'] if thorough else ['CNF']
     pmax = 5 if thorough else 4
     vmax = 24 if thorough else 16
+    if not thorough:
+        # the pseudo-Boolean class on a smaller box (the full box in thorough)
+        for (L, Rr) in [(L, Rr) for L in range(4) for Rr in range(4) if L + Rr <= 4]:
+            for es in scope.bipartite_graphs(L, Rr):
+                for f in (False, True):
+                    for o in (False, True):
+                        cs.append({'fam': 'gphp', 'args': [L, Rr, list(es), f, o], 'cls': 'OPB'})
+                for eq in (False, True):
+                    cs.append({'fam': 'subsetcard', 'args': [L, Rr, list(es), eq], 'cls': 'OPB'})
+        for P in range(4):
+            for H in range(4):
+                for f in (False, True):
+                    for o in (False, True):
+                        cs.append({'fam': 'php', 'args': [P, H, f, o], 'cls': 'OPB'})
+                cs.append({'fam': 'bphp', 'args': [P, H], 'cls': 'OPB'})
+        for M in range(0, 6):
+            for p_ in range(1, M + 2):
+                cs.append({'fam': 'count', 'args': [M, p_], 'cls': 'OPB'})
+        for n in range(5):
+            for es in scope.simple_graphs(n):
+                cs.append({'fam': 'matching', 'args': [n, list(es)], 'cls': 'OPB'})
+        for (M, T, N) in [(m_, t_, n_) for m_ in range(3) for t_ in range(3) for n_ in range(3)]:
+            cs.append({'fam': 'rphp', 'args': [M, T, N], 'cls': 'OPB'})
+        for (n, k, c) in [(2, 1, 1), (2, 2, 1), (3, 2, 2), (3, 1, 2), (2, 2, 2), (1, 1, 1), (0, 0, 0)]:
+            cs.append({'fam': 'cliquecol', 'args': [n, k, c], 'cls': 'OPB'})
     for cls in classes:
         for P in range(pmax + 1):
             for H in range(pmax + 1):
